@@ -31,7 +31,8 @@ def bootstrap(argv=None):
     if os.environ.get('TALLYSIM_BOOTED') != '1' or os.environ.get('PYTHONHASHSEED') != want_hash:
         env = {}
         for k in ('VERIF_REPO', 'VERIF_SEED', 'VERIF_TIER', 'VERIF_SCRATCH', 'VERIF_WORKERS',
-                  'TALLYSIM_HASHSEED', 'VERIF_BUDGET_S', 'VERIF_RUNS', 'VERIF_NO_KNOWN', 'VERIF_EVIDENCE_DIR', 'VERIF_REPLAY_DIR'):
+                  'TALLYSIM_HASHSEED', 'VERIF_BUDGET_S', 'VERIF_RUNS', 'VERIF_NO_KNOWN', 'VERIF_EVIDENCE_DIR', 'VERIF_REPLAY_DIR',
+                  'VERIF_SUBPASS', 'VERIF_RUN_OFFSET'):
             if k in os.environ:
                 env[k] = os.environ[k]
         env.update(FIXED_ENV)
